@@ -461,7 +461,7 @@ class World:
             if v.attached is not None and v.attached != o.key(name) and not v.fresh_obj:
                 I.eng.oblige(f"attach/{name}: value is not already held elsewhere in the model", False, kind="post")
             v.attached = o.key(name)
-        elif isinstance(v, UPDict):
+        elif isinstance(v, (UPDict, KDict)):
             pass
         elif isinstance(v, (ModelObj, SList, list)):
             pass
